@@ -138,6 +138,9 @@ fn minimise<W: World>(w: W, class: &str, st: &mut Stats) -> (W, u64) {
                 // accept only if it reproduces twice
                 let b = run_isolated(&cand, &mut scratch);
                 if b.violation.as_ref().map(|v| v.class == class).unwrap_or(false) && a.log_hash == b.log_hash {
+                    if std::env::var("SIM_MIN_TRACE").is_ok() {
+                        eprintln!("minimise: accepted candidate after {} tries, {:.1}s", tries, t0.elapsed().as_secs_f64());
+                    }
                     cur = cand;
                     continue 'outer;
                 }
